@@ -81,7 +81,7 @@ def replay(path, seed):
     common.cargo_build()
     d = common.outdir(PROP)
     rp = os.path.join(d, "replay_report.json")
-    if c.get("type") in ("std::net::SocketAddr", "time::Duration", "time::Utc", "BitVec", "limiter::Rate") or c.get("mode") == "std" and "case" not in c:
+    if c.get("type") in ("std::net::SocketAddr", "time::Duration", "time::Utc", "BitVec", "limiter::Rate", "LeaderProposal", "ReplicaTimeout", "ReplicaCommit", "FinalBlock", "Block", "TimeoutQC", "Genesis", "ChonkyV2State", "Signed<NetAddress>", "Signed<ConsensusMsg>") or c.get("mode") == "std" and "case" not in c:
         r5 = common.tlc("wire", "StdValues", cfg="StdValues.cfg", workers=1, timeout=600)
         cp = os.path.join(d, "replay_case.ndjson")
         common.write_ndjson(cp, r5.printed("CASE"))
